@@ -271,6 +271,7 @@ namespace bloch::runtime {
         std::vector<size_t> m_frameStack;
         Value m_returnValue;
         bool m_hasReturn = false;
+        bool m_buildingClassTable = false;
         // A runtime error raised by a user destructor cannot leave the shared_ptr deleter that
         // runs it; it is kept here and reported at the next statement boundary.
         std::exception_ptr m_pendingDestructorError;
